@@ -264,7 +264,12 @@ def _reset_before_use(r, attr, writers, readers) -> bool:
     for x in own_nodes(f.node):
         if not isinstance(x, ast.If):
             continue
-        cp = compare_parts(x.test)
+        test_core, in_else = x.test, False
+        while isinstance(test_core, ast.UnaryOp) and isinstance(test_core.op, ast.Not):
+            test_core, in_else = test_core.operand, not in_else          # if not X == 0: ... else: <reset>
+        cp = compare_parts(test_core)
+        if cp is not None and isinstance(cp[1], ast.NotEq):
+            cp, in_else = (cp[0], ast.Eq(), cp[2]), not in_else
         if cp is None or not isinstance(cp[1], ast.Eq) or not (isinstance(cp[2], ast.Constant) and cp[2].value == 0):
             continue
         srcs = [cp[0]]
@@ -275,7 +280,7 @@ def _reset_before_use(r, attr, writers, readers) -> bool:
         if not any(_macrostep_transient(r, t, [w for fn in r.funcs if fn.name != "__init__" for w in attr_writes(fn) if w.attr == t and w.base == "self"])
                    and any(w.attr == t for fn in r.funcs if fn.name != "__init__" for w in attr_writes(fn)) for t in tattrs):
             continue
-        resets = [y for st in x.body for y in ast.walk(st) if isinstance(y, ast.Assign) and isinstance(y.targets[0], ast.Attribute)
+        resets = [y for st in (x.orelse if in_else else x.body) for y in ast.walk(st) if isinstance(y, ast.Assign) and isinstance(y.targets[0], ast.Attribute)
                   and y.targets[0].attr == attr and dotted(y.targets[0].value) == "self" and isinstance(y.value, ast.Constant)]
         if not resets:
             continue
